@@ -120,6 +120,11 @@ def _step_of(e, l):
             len(e[2]) == 2 and e[2][0] == ("multi", l) and e[2][1][0] == "const":
         k = int(e[2][1][2])
         return k if "add" in e[1] else -k
+    # `let Some(rest) = cell.checked_sub(k) else { .. }; cell = rest`
+    if e[0] == "proj" and e[2] == ("@Some", ".0") and e[1][0] == "call" and re.search(r"core::num::<impl usize>::checked_(sub|add)$", e[1][1] or "") and \
+            len(e[1][2]) == 2 and strip_refs(e[1][2][0]) == ("multi", l) and e[1][2][1][0] == "const":
+        k = int(e[1][2][1][2])
+        return k if e[1][1].endswith("add") else -k
     return None
 
 
@@ -192,6 +197,14 @@ def find_budget(ctx, R, d, fl, head, body, inside):
         for sb in body:
             for tgt, labs in fl.edge_labels(sb).items():
                 for lab in labs:
+                    checked_none = False
+                    if lab[0] == "variant" and lab[2] == "None" and not up:
+                        y = strip_refs(lab[1])
+                        if y[0] == "call" and re.search(r"core::num::<impl usize>::checked_sub$", y[1] or "") and len(y[2]) == 2 and \
+                                strip_refs(y[2][0]) == ("multi", l) and y[2][1][0] == "const":
+                            # the None edge of cell.checked_sub(k): taken exactly when fewer than k are left -- read as `cell < k`
+                            lab = ("bool", ("binop", "Lt", ("multi", l), y[2][1]), True)
+                            checked_none = True
                     if not (lab[0] == "bool" and lab[1][0] == "binop" and lab[1][1] in ("Gt", "Ge", "Lt", "Le", "Eq", "Ne")):
                         continue
                     op, a, c = lab[1][1], lab[1][2], lab[1][3]
@@ -240,6 +253,9 @@ def find_budget(ctx, R, d, fl, head, body, inside):
                     # a step before the poll (count += 1; test; poll) admits steps_before - 1 polls; after the poll, steps_before
                     pre = all(any(d.dominates(s_, p) for s_ in step_bbs) for p in inside)
                     room = steps_before - (1 if pre else 0)
+                    if checked_none:
+                        # test and step are one operation: every successful step is followed by (at most) one poll
+                        room = (init_v // k) if k else 0
                     cand = {"l": l, "init": c_["inits"][0], "step": c_["steps"][0][1], "steps": sorted(step_bbs), "cmp": op, "bound": c[2],
                             "sb": sb, "tgt": tgt, "exit_ok": exit_ok, "exit_det": bad or "%d feasible crossings" % n_cross, "room": room}
                     if best is None or (cand["exit_ok"] and not best["exit_ok"]):
